@@ -110,6 +110,11 @@ func zzTypedBinaryI32(op BinaryOperator, x, y int32) (int32, bool) {
 	case BinaryMultiply:
 		r := int64(x) * int64(y)
 		return int32(r), r == int64(int32(r))
+	case BinaryDivide:
+		if y == 0 || (x == -2147483648 && y == -1) {
+			return 0, false
+		}
+		return x / y, true
 	}
 	return 0, false
 }
@@ -124,15 +129,20 @@ func zzTypedBinaryU32(op BinaryOperator, x, y uint32) (uint32, bool) {
 	case BinaryMultiply:
 		r := uint64(x) * uint64(y)
 		return uint32(r), r <= 0xFFFFFFFF
+	case BinaryDivide:
+		if y == 0 {
+			return 0, false
+		}
+		return x / y, true
 	}
 	return 0, false
 }
 
 // U2: a derived override b = a OP k (or k OP a) evaluated from its default initialiser, a supplied
-// or defaulted, integer types, OP in + - * (no overflow). Oracle: typed WGSL evaluation.
+// or defaulted, integer types, OP in + - * / (no overflow, divisor != 0). Oracle: typed WGSL evaluation.
 func ZZ_C14_derived_int() {
 	signed := zz.Flag("signed")
-	op := BinaryOperator(zz.Choice("op", 3)) // Add, Subtract, Multiply
+	op := BinaryOperator(zz.Choice("op", 4)) // Add, Subtract, Multiply, Divide
 	swap := zz.Flag("swap")
 	supplyA := zz.Flag("supplyA")
 	aDef := zz.U32("aDefault")
